@@ -112,24 +112,65 @@ func listHasRequired(ps [][2]string, m mergedDef) bool {
 // Classifiers of the listed findings: predicates over the INPUT (plus, for
 // the first, that nothing but the shared stamps is affected).
 
-// the options were given as a struct (bill.WithOptions) whose Stamps hold a required provider
+// the options were given as a struct (bill.WithOptions) with stamps, and a
+// required provider is among them or among the raw data stamps (which are
+// decoded into the caller's stamp values)
 func afterSharedStampsClassifier(t tcase, m mergedDef, diff []string) string {
 	s := t.Stamps
-	if s != nil && s.FuncVia == "WithOptions" && s.FuncKind == "list" && listHasRequired(s.FuncList, m) && onlyPrecedingStamps(diff) {
+	if s == nil || s.FuncVia != "WithOptions" || s.FuncKind != "list" || !onlyPrecedingStamps(diff) {
+		return ""
+	}
+	if listHasRequired(s.FuncList, m) || (s.DataKind == "list" && listHasRequired(s.DataList, m)) {
 		return "c16.after.withOptionsStampsSharedWithResult"
 	}
 	return ""
 }
 
-// the options were given as a struct (bill.WithOptions) together with raw data
-// holding a member the struct holds by reference (stamps, ext, issue_date)
-func afterRewrittenClassifier(t tcase, keep *callerOptions) string {
+// coState: the members of the caller's option struct, one text each.
+func coState(co *bill.CorrectionOptions) map[string]string {
+	st := map[string]string{
+		"type": co.Type.String(), "reason": co.Reason, "series": co.Series.String(), "copy_tax": fmt.Sprint(co.CopyTax),
+	}
+	if co.IssueDate != nil {
+		st["issue_date"] = co.IssueDate.String()
+	}
+	if co.Ext != nil {
+		b, _ := json.Marshal(co.Ext) // sorted keys
+		st["ext"] = string(b)
+	}
+	var sb strings.Builder
+	for _, s := range co.Stamps[:cap(co.Stamps)] {
+		if s == nil {
+			sb.WriteString("<nil>;")
+		} else {
+			fmt.Fprintf(&sb, "%p %s=%s;", s, s.Provider, s.Value)
+		}
+	}
+	st["stamps"] = sb.String()
+	return st
+}
+
+// afterRewrittenClassifier: the options were given as a struct
+// (bill.WithOptions); what the call changed in it is (a) members held by
+// reference that the raw data given beside it names as well, or (b) nothing
+// but the extension map (no raw `ext`): the corrected document's own
+// normalisation worked on the caller's map.
+func afterRewrittenClassifier(t tcase, keep *callerOptions, changed []string) string {
 	s := t.Stamps
-	if s == nil || s.FuncVia != "WithOptions" || keep == nil || keep.co == nil || len(keep.data) == 0 {
+	if s == nil || s.FuncVia != "WithOptions" || keep == nil || keep.co == nil || len(changed) == 0 {
 		return ""
 	}
-	if (dataHas(keep.data, "stamps") && len(keep.co.Stamps) > 0) || (dataHas(keep.data, "ext") && keep.co.Ext != nil) || (dataHas(keep.data, "issue_date") && keep.co.IssueDate != nil) {
+	byData := true
+	for _, f := range changed {
+		if !(f == "stamps" || f == "ext" || f == "issue_date") || !dataHas(keep.data, f) {
+			byData = false
+		}
+	}
+	if byData {
 		return "c16.after.withOptionsValuesRewrittenByRawData"
+	}
+	if len(changed) == 1 && changed[0] == "ext" && !dataHas(keep.data, "ext") && t.Opts.Ext {
+		return "c16.after.withOptionsExtSharedWithDocument"
 	}
 	return ""
 }
@@ -169,10 +210,10 @@ func runAfter(c *core.Ctx, t tcase) {
 		via = fmt.Sprintf("correct:%s:%s:data=%s", orDash(t.Stamps.FuncVia), orDash(t.Stamps.FuncKind+labelOf(t.Stamps.FuncList, m)), t.Stamps.DataKind+labelOf(t.Stamps.DataList, m))
 	}
 	c.Eval("after|"+t.Name+"|"+via+fmt.Sprint(t.Opts, t.HeadStamps), true)
-	var callerBefore *conc.Snapshot
+	var callerBefore map[string]string
 	var dataBefore []byte
 	if keep.co != nil {
-		callerBefore = conc.Dump("options", keep.co)
+		callerBefore = coState(keep.co)
 	}
 	stBefore := conc.Dump("stamps", keep.st)
 	dataBefore = append(dataBefore, keep.data...)
@@ -190,8 +231,16 @@ func runAfter(c *core.Ctx, t tcase) {
 	}
 	// the call itself leaves the caller's values alone
 	if keep.co != nil {
-		if now := conc.Dump("options", keep.co); now.Digest != callerBefore.Digest {
-			c.Fail(afterRewrittenClassifier(t, keep), "Correct changed the option struct the caller gave with bill.WithOptions: "+strings.Join(callerBefore.Diff(now, 6), " ;; "), t)
+		now := coState(keep.co)
+		var changed, lines []string
+		for _, f := range []string{"type", "reason", "series", "copy_tax", "issue_date", "ext", "stamps"} {
+			if now[f] != callerBefore[f] {
+				changed = append(changed, f)
+				lines = append(lines, fmt.Sprintf("%s: %s → %s", f, callerBefore[f], now[f]))
+			}
+		}
+		if len(changed) > 0 {
+			c.Fail(afterRewrittenClassifier(t, keep, changed), "Correct changed the option struct the caller gave with bill.WithOptions: "+strings.Join(lines, " ;; "), t)
 		}
 	}
 	if now := conc.Dump("stamps", keep.st); keep.co == nil && now.Digest != stBefore.Digest {
